@@ -94,11 +94,12 @@ CONTRACTS['distance_bin'] = Contract(
                                     "check('exit-no-open-pair-at-distance-n', forall(lambda x, y: implies(And(inr(x, n0), inr(y, n0), x != y, D[x, y] == 0), sdist(G, x, y) != n))); "
                                     "check('exit-no-open-pair-beyond-n', forall(lambda x, y: implies(And(inr(x, n0), inr(y, n0), x != y, D[x, y] == 0), sdist(G, x, y) <= n)))"},
     ghost_before={'body:while np.any(L)': "assume(lemma_walks(G, n0))",
-                  'D[D == 0] = np.inf': "check('found-entries-are-integers', forall(lambda x, y: implies(And(inr(x, n0), inr(y, n0), x != y, D[x, y] != 0), D[x, y] < INF)))"},
+                  'D[D == 0] = np.inf': "assume(lemma_sdist_support(G, arg('G'), n0)); check('found-entries-are-integers', forall(lambda x, y: implies(And(inr(x, n0), inr(y, n0), x != y, D[x, y] != 0), D[x, y] < INF)))"},
     ensures=[('distance-is-shortest-walk-length', "forall(lambda x, y: implies(And(inr(x, n0), inr(y, n0), x != y, sdist(G, x, y) >= 1), result()[x, y] == sdist(G, x, y)))"),
              ('infinite-when-no-walk', "forall(lambda x, y: implies(And(inr(x, n0), inr(y, n0), x != y, sdist(G, x, y) == 0), result()[x, y] == INF))"),
              ('infinite-only-when-no-walk', "forall(lambda x, y: implies(And(inr(x, n0), inr(y, n0), x != y, result()[x, y] == INF), sdist(G, x, y) == 0))"),
              ('diagonal-zero', "forall(lambda x: implies(inr(x, n0), result()[x, x] == 0))"),
+             ('hop-distances-of-the-binarised-copy-are-those-of-the-argument', "forall(lambda x, y: implies(And(inr(x, n0), inr(y, n0)), sdist(G, x, y) == sdist(arg('G'), x, y)))"),
              ('argument-untouched', "unchanged('G')")])
 
 
@@ -390,7 +391,7 @@ CONTRACTS['reachdist'] = Contract(
                                  "check('connections-are-walks-of-one-connection', " + (_RC % "implies(CIJ[x, y] != 0, walk(CIJ, x, y, 1))") + "); "
                                  "check('walks-of-one-connection-are-shortest', forall(lambda x, y: implies(And(inr(x, n0), inr(y, n0), walk(CIJ, x, y, 1)), sdist(CIJ, x, y) == 1), pattern=walk(CIJ, x, y, 1))); "
                                  "check('distance-one-means-connected', " + (_RC % "implies(sdist(CIJ, x, y) == 1, CIJ[x, y] != 0)") + ")"},
-    ghost_before={'D = powr*': "check('a-node-without-outgoing-connections-reaches-nothing', forall(lambda x, y: implies(And(inr(x, n0), inr(y, n0), od[x] == 0), sdist(CIJ, x, y) == 0))); "
+    ghost_before={'D = powr*': "assume(lemma_sdist_support(CIJ, arg('CIJ'), n0)); check('a-node-without-outgoing-connections-reaches-nothing', forall(lambda x, y: implies(And(inr(x, n0), inr(y, n0), od[x] == 0), sdist(CIJ, x, y) == 0))); "
                                       "check('a-node-without-incoming-connections-is-reached-by-nothing', forall(lambda x, y: implies(And(inr(x, n0), inr(y, n0), id[y] == 0), sdist(CIJ, x, y) == 0))); "
                                       "check('every-node-with-an-outgoing-connection-is-selected', forall(lambda x: implies(And(inr(x, n0), od[x] != 0), And(where_index1(row, x) >= 0, where_index1(row, x) < len(row), row[where_index1(row, x)] == x)))); "
                                       "check('every-node-with-an-incoming-connection-is-selected', forall(lambda y: implies(And(inr(y, n0), id[y] != 0), And(where_index1(col, y) >= 0, where_index1(col, y) < len(col), col[where_index1(col, y)] == y)))); "
@@ -398,6 +399,7 @@ CONTRACTS['reachdist'] = Contract(
                   'return (R, D)': "check('a-node-without-outgoing-connections-reaches-nothing-2', forall(lambda x, y: implies(And(inr(x, n0), inr(y, n0), od[x] == 0), sdist(CIJ, x, y) == 0))); "
                                    "check('a-node-without-incoming-connections-is-reached-by-nothing', forall(lambda x, y: implies(And(inr(x, n0), inr(y, n0), id[y] == 0), sdist(CIJ, x, y) == 0)))"},
     ensures=[('network-is-the-binarised-argument', "forall(lambda x, y: implies(And(inr(x, n0), inr(y, n0)), CIJ[x, y] == (1 if arg('CIJ')[x, y] != 0 else 0)))"),
+             ('hop-distances-of-the-binarised-copy-are-those-of-the-argument', "forall(lambda x, y: implies(And(inr(x, n0), inr(y, n0)), sdist(CIJ, x, y) == sdist(arg('CIJ'), x, y)))"),
              ('distance-is-the-shortest-path-length', _PAIR % "implies(sdist(CIJ, a, b) >= 1, result(1)[a, b] == sdist(CIJ, a, b))"),
              ('infinite-exactly-when-unreachable', _PAIR % "iff(sdist(CIJ, a, b) == 0, result(1)[a, b] == INF)"),
              ('reachability-flag-is-true-exactly-for-finite-distances', _PAIR % "iff(result(0)[a, b], result(1)[a, b] != INF)"),
